@@ -10,9 +10,6 @@ import (
 type Spec_ChoquetIntegralBiasListener struct {
 }
 
-type Spec_ChoquetIntegralBiasListener struct {
-}
-
 type Spec_ChoquetIntegralPreferenceFunc struct {
 }
 
@@ -24,9 +21,6 @@ type Spec_weightComponent struct {
 type Spec_criterionWeight struct {
 	criterion string
 	weight    model.Weight
-}
-
-type Spec_ChoquetIntegralPreferenceFunc struct {
 }
 
 type Spec_choquetParams struct {
